@@ -12,7 +12,7 @@ EXPLANATION = ("real repair_dna on EVERY A/C/G/T string of n nucleotides (symbol
 STUBS = ["Monitor unused"]
 ASSUMPTIONS = ["graphs are concrete members of a small family of generated graphs (a symbolic graph makes the exploration hopeless: > 5000 paths at k=1, n=2); "
                "the strand is fully symbolic", "budget = 60 (n+1) k (2k+2) + 200 accessor row reads"]
-BUDGET_S = {"quick": 1500, "thorough": 10000}
+BUDGET_S = {"quick": 1500, "thorough": 1500}
 
 
 def make_loader(cfg):
